@@ -103,7 +103,7 @@ func GenFedSpec(t *rapid.T) *Spec {
 		f.Args = rapid.SampledFrom([]string{"", "", "A"}).Draw(t, "args")
 		f.NilMod = rapid.SampledFrom([]int{0, 2, 3}).Draw(t, "nilmod")
 		f.MaxLen = rapid.SampledFrom([]int{0, 1, 3, 4}).Draw(t, "maxlen")
-		f.NilElem = false
+		f.NilElem = rapid.IntRange(0, 2).Draw(t, "nilelem") == 0 // lists of objects / unions with null entries
 		return f
 	}
 	q := ObjSpec{Type: "Query"}
